@@ -14,7 +14,7 @@ def enc(s):
 ID = "C01"
 MODULES = ["Helios.Props.C01", "Helios.Props.Facts"]
 THEOREMS = ["Helios.Proxy.wire_ok", "Helios.Proxy.replay", "Helios.Proxy.replay_flushes", "Helios.Proxy.via_transparent",
-            "Helios.Proxy.request_preserved", "Helios.Proxy.transLb_id",
+            "Helios.Proxy.request_preserved", "Helios.Proxy.transLb_id", "Helios.Proxy.rec_transparent",
             "Helios.Facts.wrappers_capable", "Helios.Facts.wrappers_known", "Helios.Facts.proxy_passthrough"]
 
 METHODS = ["GET", "GET", "GET", "POST", "POST", "PUT", "DELETE", "PATCH", "HEAD", "OPTIONS"]
